@@ -260,7 +260,10 @@ func c06Shrink(raw json.RawMessage) []json.RawMessage {
 // speaks the version-vector protocol, under which the two sides' revision-tree ids may differ), the body and
 // the tombstone state.
 func c06Differ(a, b c06DocState, legacy bool) bool {
-	sameRevision := a.CV == b.CV || a.Rev == b.Rev // version-vector protocol: current version (the revision-tree ids may differ)
+	sameRevision := a.CV == b.CV // version-vector protocol: the current version identifies the revision (the revision-tree ids may differ)
+	if a.CV == "" || b.CV == "" {
+		sameRevision = a.Rev == b.Rev
+	}
 	if legacy {
 		sameRevision = a.Rev == b.Rev // legacy protocol: revision-tree id
 	}
